@@ -55,6 +55,11 @@ type c05gEnt struct {
 	Set   bool
 	Field string
 	Links []string
+	// R-cases (c05_restrict.go): SetLinkedIds on ctx.GetParentContext() (the parent's field, through a child
+	// store); the fk field `ref`
+	Parent bool
+	HasRef bool
+	Ref    string
 }
 
 func (e *c05gEnt) GetId() string         { return e.Id }
@@ -67,7 +72,14 @@ func (s c05gStrategy) NewEntity() *c05gEnt                      { return &c05gEn
 func (s c05gStrategy) FillEntity(*c05gEnt, *boltz.TypedBucket) {}
 func (s c05gStrategy) PersistEntity(e *c05gEnt, ctx *boltz.PersistContext) {
 	if e.Set {
-		ctx.SetLinkedIds(e.Field, e.Links)
+		if e.Parent {
+			ctx.GetParentContext().SetLinkedIds(e.Field, e.Links)
+		} else {
+			ctx.SetLinkedIds(e.Field, e.Links)
+		}
+	}
+	if e.HasRef && !ctx.Bucket.HasError() {
+		ctx.SetString(c05gRefField, e.Ref)
 	}
 }
 
@@ -88,6 +100,8 @@ type c05gSchema struct {
 	byName [4]map[string]int // per store: symbol name -> collection index
 	byPath [2]map[string]int // per family: bucket path inside the root entity bucket -> collection index
 	prefix [2]map[string]bool // per family: proper prefixes of those paths (intermediate buckets)
+	fk     int                // R-cases: -1 none, 0 = restricting fk A.ref -> B, 1 = B.ref -> A
+	isR    bool               // R-case schema: the dump ends with the fk field values and back-reference sets
 }
 
 // c05gSymbol declares the set symbol of one collection end in the given naming variant and returns
@@ -190,8 +204,18 @@ func c05gBuild(spec string) *c05gSchema {
 	if s, ok := c05gSchemas[spec]; ok {
 		return s
 	}
-	s := &c05gSchema{}
+	s := &c05gSchema{fk: -1}
 	full := spec
+	if t := strings.Index(spec, "~"); t >= 0 {
+		s.isR = true
+		switch spec[t+1:] {
+		case "AB":
+			s.fk = 0
+		case "BA":
+			s.fk = 1
+		}
+		spec = spec[:t]
+	}
 	ext := [2]bool{}
 	if at := strings.Index(spec, "@"); at >= 0 {
 		fl := spec[at+1:]
@@ -269,6 +293,13 @@ func c05gBuild(spec string) *c05gSchema {
 			s.colls = append(s.colls, c)
 		}
 	}
+	if s.fk >= 0 {
+		// restricting fk: fkIndex on the referring root store, fkDeleteConstraint on the referred one
+		src, dst := s.stores[s.fk], s.stores[1-s.fk]
+		fkSym := src.AddFkSymbol(c05gRefField, dst)
+		back := dst.AddFkSetSymbol(c05gBackField, src)
+		src.AddNullableFkIndex(fkSym, back)
+	}
 	c05gSchemas[full] = s
 	return s
 }
@@ -281,6 +312,23 @@ func (s *c05gSchema) op(ctx boltz.MutateContext, op string) (string, bool) {
 	ret := "u"
 	var err error
 	switch f[0] {
+	case "cr", "crl":
+		// Create through the referring root store with the fk field set: cr:X:id:target  crl:X:id:target:i:keys
+		x := c05gStoreIdx(f[1])
+		e := &c05gEnt{Id: fromWire(f[2]), Type: c05gTypes[x%2], HasRef: true, Ref: fromWire(f[3])}
+		if f[0] == "crl" {
+			i, _ := strconv.Atoi(f[4])
+			e.Set, e.Field, e.Links = true, s.field(i, x), c05List(f[5])
+		}
+		err = s.stores[x].Create(ctx, e)
+	case "cp":
+		// Create through child store x; PersistEntity persists the PARENT's link field on GetParentContext()
+		x := c05gStoreIdx(f[1])
+		i, _ := strconv.Atoi(f[3])
+		err = s.stores[x].Create(ctx, &c05gEnt{Id: fromWire(f[2]), Type: c05gTypes[x%2], Set: true, Parent: x >= 2,
+			Field: s.field(i, x%2), Links: c05List(f[4])})
+	case "dt":
+		err = s.stores[c05gStoreIdx(f[1])].DeleteById(ctx, fromWire(f[2]))
 	case "c", "cl", "u", "d":
 		x := c05gStoreIdx(f[1])
 		st := s.stores[x]
@@ -431,7 +479,12 @@ type c05gVisitor struct {
 	s     *c05gSchema
 	ents  [2]map[string]*c05gDumpEnt
 	extra []string
+	refs  []string // fk field values  <referrer>><target>
+	idx   []string // back-reference set entries  <target><<referrer>
 }
+
+const c05gRefField = "ref"
+const c05gBackField = "refd"
 
 func (v *c05gVisitor) ent(fam int, id string) *c05gDumpEnt {
 	if v.ents[fam][id] == nil {
@@ -476,6 +529,9 @@ func (v *c05gVisitor) VisitBucket(path string, key []byte, _ *bbolt.Bucket) bool
 			v.ent(fam, id).child = true
 		default:
 			_, isField := v.s.byPath[fam][rel]
+			if v.s.fk >= 0 && fam == 1-v.s.fk && rel == c05gBackField {
+				isField = true
+			}
 			if !isField && !v.s.prefix[fam][rel] {
 				v.extra = append(v.extra, "bucket:"+path+"/"+toWire(k))
 			}
@@ -497,6 +553,18 @@ func (v *c05gVisitor) VisitKeyValue(path string, key, value []byte) bool {
 			if t == boltz.TypeString && c.kind == 'r' && len(value) == 5 && boltz.FieldType(value[0]) == boltz.TypeInt32 {
 				n := int32(binary.LittleEndian.Uint32(value[1:]))
 				en.fields[i] = append(en.fields[i], toWire(string(k))+":"+strconv.FormatInt(int64(n), 10))
+				return true
+			}
+		}
+	}
+	if fam, id, rel, ok := c05gEntityRel(strings.Split(path, "/")); ok && v.s.fk >= 0 {
+		if rel == "" && fam == v.s.fk && string(key) == c05gRefField && len(value) > 0 && boltz.FieldType(value[0]) == boltz.TypeString {
+			v.refs = append(v.refs, toWire(id)+">"+toWire(string(value[1:])))
+			return true
+		}
+		if rel == c05gBackField && fam == 1-v.s.fk && len(value) == 0 {
+			if t, k := boltz.GetTypeAndValue(key); t == boltz.TypeString {
+				v.idx = append(v.idx, toWire(id)+"<"+toWire(string(k)))
 				return true
 			}
 		}
@@ -541,6 +609,11 @@ func (s *c05gSchema) dump(tx *bbolt.Tx) string {
 		sort.Strings(v.extra)
 		b.WriteString("EXTRA:" + strings.Join(v.extra, ","))
 	}
+	if s.isR {
+		sort.Strings(v.refs)
+		sort.Strings(v.idx)
+		b.WriteString("#F" + strings.Join(v.refs, ";") + "#I" + strings.Join(v.idx, ";"))
+	}
 	return b.String()
 }
 
@@ -562,6 +635,9 @@ func c05SchemaExec(line string) string {
 			for _, op := range ops {
 				r, failed := s.op(ctx, op)
 				results = append(results, r)
+				if failed && strings.HasPrefix(op, "dt:") {
+					continue // R-cases: the caller tolerates a refused DeleteById and carries on
+				}
 				if failed {
 					partial = s.view(ctx.Tx(), pools)
 					return fmt.Errorf("op failed")
